@@ -1062,15 +1062,16 @@ impl<'env> Executor<'env> {
                 "template name was not a string",
             ));
         };
-        if state.loaded_templates.contains(&name) {
+        let tmpl = ok!(state.get_template(name));
+        let (new_instructions, new_blocks) = ok!(tmpl.instructions_and_blocks());
+        // the name a template is loaded under can differ from the one it was
+        // referenced by (path join callback): the former is what is tracked.
+        if !state.loaded_templates.insert(new_instructions.name()) {
             return Err(Error::new(
                 ErrorKind::InvalidOperation,
                 format!("cycle in template inheritance. {name:?} was referenced more than once"),
             ));
         }
-        let tmpl = ok!(state.get_template(name));
-        let (new_instructions, new_blocks) = ok!(tmpl.instructions_and_blocks());
-        state.loaded_templates.insert(new_instructions.name());
         for (name, instr) in new_blocks.iter() {
             state
                 .blocks
